@@ -1,5 +1,5 @@
 # C01 - e2fsck repairs converge: a repaired filesystem checks clean     (campaign shared with C02)
-import json, os, subprocess, hashlib
+import re, json, os, subprocess, hashlib
 import e2v
 from props import c02
 
@@ -50,7 +50,8 @@ def run(res, replay=None):
         elif c["cons2"] not in ([], None, "skipped"):
             why = "repaired filesystem still violates: %s" % c["cons2"][:3]
         if why:
-            bad.append((rec, why, c["out_n2"]))
+            xl = bool(c.get("journal_crosslinked"))
+            bad.append((rec, why, c["out_n2"], xl))
         else:
             stats["second_run_clean"] += 1
         if len(res.cov["samples"]) < 3 and nontriv:
@@ -61,9 +62,14 @@ def run(res, replay=None):
                          "statement": "e2fsck -fy claiming success is followed by e2fsck -fn with exit 0, an empty problem log and a consistent independent reading"}
     res.cov["rule"] = ("same images and corruption operators as C02; non-trivial = the first e2fsck -fn reported at least one problem")
     res.add_obligation("verdict model consistent with every observed -y exit status", not vbad)
-    for rec, why, out in bad[:3]:
-        res.violation("oracle", {"recipe": rec, "note": why, "second_run_output_tail": out[-400:]},
-                      signature="c01:" + hashlib.sha256(json.dumps(rec["operators"]).encode()).hexdigest()[:12])
+    def sig(rec, why, out, xl):
+        if xl and "invalid journal" in out:
+            return "c01:journal-cross-linked-superblock-lost"
+        return "c01:" + hashlib.sha256(json.dumps(rec["operators"]).encode()).hexdigest()[:12]
+    bad.sort(key=lambda b: 1 if sig(*b).startswith("c01:journal-") else 0)
+    for rec, why, out, xl in bad[:3]:
+        res.violation("oracle", {"recipe": rec, "note": why, "second_run_output_tail": out[-400:], "journal_blocks_cross_linked_in_input": xl},
+                      signature=sig(rec, why, out, xl))
     for rec, probs, rc in vbad[:2]:
         res.violation("correspondence", {"recipe": rec, "problem_log": probs, "exit": rc}, signature="c01v:" + hashlib.sha256(json.dumps(rec["operators"]).encode()).hexdigest()[:12])
     if not pr["ok"] and not bad and not vbad:
